@@ -347,7 +347,7 @@ fn main() {
                 "C04" => check_sched::check("C04", tier, props_sched::c04_families(tier), &["linearizable", "no-panic"], nthreads()),
                 "C05" => check_seq("C05", tier),
                 "C16" => check_sched::check("C16", tier, props_sched::c16_families(tier), &["deadlock", "livelock"], nthreads()),
-                "C14c" => check_sched::check("C14", tier, props_sched::c14_families(tier), &["over-limit", "deadlock", "livelock", "no-panic"], nthreads()),
+                "C14c" => check_sched::check("C14", tier, props_sched::c14_families(tier), &["over-limit", "over-limit-after-race", "over-limit-after-quiet-race", "deadlock", "livelock", "no-panic"], nthreads()),
                 "C06" => check_seq("C06", tier),
                 "C07" => check_seq("C07", tier),
                 "C08" => check_seq("C08", tier),
@@ -368,7 +368,7 @@ fn main() {
                 "C14s" => check_seq("C14", tier),
                 "C14" => {
                     let a = check_seq("C14", tier);
-                    let b = check_sched::check("C14", tier, props_sched::c14_families(tier), &["over-limit", "deadlock", "livelock", "no-panic"], nthreads());
+                    let b = check_sched::check("C14", tier, props_sched::c14_families(tier), &["over-limit", "over-limit-after-race", "over-limit-after-quiet-race", "deadlock", "livelock", "no-panic"], nthreads());
                     let t = a.tier.clone();
                     report::merge("C14", &t, vec![("sequential_histories_all_victims", a), ("concurrent_stores_all_schedules", b)])
                 }
